@@ -14,6 +14,7 @@ EXPLANATION = ("Sufficient shape conditions for 'no lost update' and 'consistent
                "(split(join(c, a)) == (c, a) for all 2^64 inputs); (R19.5) the average update expression is algebraically identical, over exact rationals, to "
                "the mean recurrence (count*avg + measurement)/(count+1).")
 EXPLANATION += ' R19.1 also sees the word through accessors of the metric type (`self._atomic().fetch_add(..)`); R19.3 also requires one reading per report: no function reads the same metric more than once on one path (a count from one probe and an average from another never existed together); loops that poll are exempt.'
+EXPLANATION += " R19.2 accepts std's fetch_update as the compare-exchange loop when its closure answers Some(join_split(computation(split_joined(<its parameter>)))) on every path."
 ASSUMPTIONS = ["floating-point rounding of the mean recurrence (the tolerance clause) is numeric and not decided statically",
                "the documented counter reset at u32::MAX is outside the property's quantifier"]
 TRUSTED = ["AtomicU64::compare_exchange is atomic (std)"]
